@@ -35,7 +35,11 @@
         the sum of tasksToAllocate, then per task the node-level gate (predicates
         plugin, evaluateTaskOnPredicates) in the running state followed by
         Statement.Allocate/Pipeline, which fires the allocate handler with the
-        task's AcceptedResource; a refused task rolls the job back.
+        task's AcceptedResource; a refused task rolls the job back.  Its
+        isPipelineOnly argument ([allocate_job], [op_of]): the same gates in
+        both modes; in pipeline-only mode (scenario solvers of preempt /
+        reclaim / consolidation) tasks are nominated, never bound; the
+        fit-error report of the other mode is left out.
     - pkg/scheduler/framework/statement.go: Commit / commitAllocate /
         cleanupFailedAllocation / unallocate, as far as the usage counters are
         concerned ([event], [do_event]): a successful Cache.Bind fires no
@@ -330,6 +334,50 @@ Definition admit_job (fuel : nat) (qs : list queue) (j : job) : result outcome :
   | OutOfFuel => OutOfFuel
   | Panic => Panic
   end.
+
+(** ** The two modes of AllocateJob
+
+    common.AllocateJob(ssn, stmt, nodes, job, isPipelineOnly) is called in two
+    modes: isPipelineOnly = false by the allocate action (a real allocation:
+    a task that fits idle resources is allocated with Statement.Allocate and
+    bound at commit, one that only fits releasing resources is nominated with
+    Statement.Pipeline), isPipelineOnly = true by the scenario solvers of the
+    preempt, reclaim and consolidation actions (tasks are only ever nominated).
+    Both operations fire the same allocate handler.  The capacity gates are
+    the same in both modes: the job-level gate ssn.IsJobOverQueueCapacityFn on
+    the sum of tasksToAllocate runs first (the `if !isPipelineOnly` inside its
+    refusal branch guards only job.AddJobFitError, the fit-error report, which
+    is left out here), then per task the node-level gate.  [allocate_job] is
+    that function with its mode; [admit_job] above is the same text without the
+    mode argument (Proofs/CapacityModes.v: equal for both modes). *)
+Inductive op_kind := OpAllocate | OpPipeline.
+
+(** allocateTask: the statement operation a placed task is recorded with.
+    [fits_idle]: the node has the resources idle (node books: C01 / C02; an
+    oracle here). *)
+Definition op_of (pipeline_only fits_idle : bool) : op_kind :=
+  if pipeline_only then OpPipeline else if fits_idle then OpAllocate else OpPipeline.
+
+Definition allocate_job (pipeline_only : bool) (fuel : nat) (qs : list queue) (j : job) : result outcome :=
+  match is_job_over_queue_capacity fuel qs (j_queue j) (j_preempt j) (map fst (j_tasks j)) with
+  | Done Schedulable => admit_tasks fuel qs (j_queue j) (j_preempt j) (j_tasks j) []
+  | Done v => Done (Refused v)   (* in both modes; only the fit-error report depends on pipeline_only *)
+  | OutOfFuel => OutOfFuel
+  | Panic => Panic
+  end.
+
+(** NOT the code -- two variants named for the theorems that say why the
+    job-level gate is there.  [admit_job_node_gate_only]: AllocateJob without
+    the job-level gate, the per-task node-level gates alone.
+    [allocate_job_gate_skipped_when_pipeline_only]: the `if !isPipelineOnly`
+    guard wrapped around the whole job-level check instead of around the
+    report, so that the solver actions run the node-level gates alone. *)
+Definition admit_job_node_gate_only (fuel : nat) (qs : list queue) (j : job) : result outcome :=
+  admit_tasks fuel qs (j_queue j) (j_preempt j) (j_tasks j) [].
+
+Definition allocate_job_gate_skipped_when_pipeline_only
+    (pipeline_only : bool) (fuel : nat) (qs : list queue) (j : job) : result outcome :=
+  if pipeline_only then admit_job_node_gate_only fuel qs j else admit_job fuel qs j.
 
 Inductive step :=
 | AdmitJob (j : job)
